@@ -15,6 +15,9 @@ Driver handler for C18 (rigid transforms and the transform registry).
   Answer: `steps[0]` after construction, `steps[i]` after the i-th operation, each
   `{"res": null | {"err":k} | answer, "probes":[answer of the current contents to every probe key with `parg`]}`,
   and `olds` = `[{"probes":[…]}…]`, the probe answers of every registry left behind by a `copy`, asked at the end.
+  With `"paths":["get","__getitem__","__contains__","load_key"]` (any subset; also accepted by `registry`) every step /
+  answer list is accompanied by `look` = for every probe key (query key) `{path: answer}`: the registered matrix,
+  `{"none":true}`, `{"bool":b}`, `{"key":[src,dst]}` or `{"err":k}`.
 
 `M = {"pos":[3],"q":[4],"src":A,"dst":A}`, `A = {"member":name} | {"str":s}`,
 `X = {"kind":"pos","pos"} | {"kind":"pose","pos","q"} | {"kind":"mat", …M} | {"kind":"noargs"|"toomany"|"unknownkw"|"posandmat"}`.
@@ -125,8 +128,35 @@ structure SeqState where
 
 def jErr (e : String) : Json := Json.mkObj [("err", e)]
 
+/-- the answers of the other access paths (`paths` names the ones the class has) to one key -/
+def jLook (d : List HM) (paths : List String) (s t : Arg) : Json :=
+  Json.mkObj (paths.filterMap fun p =>
+    match p with
+    | "get" => some (p, match dictGet d s t with
+        | .ok (some m) => jHM m
+        | .ok none => Json.mkObj [("none", true)]
+        | .error e => jErr e)
+    | "__getitem__" => some (p, match dictGetItem d s t with
+        | .ok m => jHM m
+        | .error e => jErr e)
+    | "__contains__" => some (p, match dictContains d s t with
+        | .ok b => Json.mkObj [("bool", b)]
+        | .error e => jErr e)
+    | "load_key" => some (p, match transformKey s t with
+        | .ok k => Json.mkObj [("key", Json.arr #[k.1, k.2])]
+        | .error e => jErr e)
+    | _ => none)
+
+def lookAll (d : List HM) (paths : List String) (probes : List (Arg × Arg)) : Json :=
+  Json.arr (probes.map (fun st => jLook d paths st.1 st.2)).toArray
+
+def getPaths (j : Json) : List String :=
+  match getStrList j "paths" with
+  | .ok l => l
+  | .error _ => []
+
 /-- one operation on the registry, then the probe set on the new contents -/
-def seqStep (probes : List (Arg × Arg)) (x : TArg) (st : SeqState) (oj : Json) : Except String SeqState := do
+def seqStep (paths : List String) (probes : List (Arg × Arg)) (x : TArg) (st : SeqState) (oj : Json) : Except String SeqState := do
   let op ← getStr oj "op"
   let (res, cur, olds) ← (match op with
     | "set" => do
@@ -151,7 +181,8 @@ def seqStep (probes : List (Arg × Arg)) (x : TArg) (st : SeqState) (oj : Json) 
       | .ok a => pure (jRes (dictTransform st.cur s t a), st.cur, st.olds)
     | o => throw s!"unknown registry operation {o}" : Except String (Json × List HM × List (List HM)))
   pure { cur := cur, olds := olds,
-         steps := st.steps.push (Json.mkObj [("res", res), ("probes", probeAll cur probes x)]) }
+         steps := st.steps.push (Json.mkObj [("res", res), ("probes", probeAll cur probes x),
+           ("look", lookAll cur paths probes)]) }
 
 def handle : Json → Except String Json := fun j => do
   let op ← getStr j "op"
@@ -179,7 +210,12 @@ def handle : Json → Except String Json := fun j => do
         match x with
         | .error e => pure (Json.mkObj [("arg_err", e)])
         | .ok x => pure (jRes (dictTransform mats s d x)))
-      pure (Json.mkObj [("answers", Json.arr answers.toArray)])
+      let paths := getPaths j
+      let look ← qs.toList.mapM (fun qj => do
+        let s ← getArg qj "src"
+        let d ← getArg qj "dst"
+        pure (jLook mats paths s d))
+      pure (Json.mkObj [("answers", Json.arr answers.toArray), ("look", Json.arr look.toArray)])
     | "regseq" => do
       let ops ← getArr j "ops"
       let pj ← getArr j "probes"
@@ -190,10 +226,13 @@ def handle : Json → Except String Json := fun j => do
       match ← getTArg (← j.getObjVal? "parg") with
       | .error e => throw s!"probe argument rejected: {e}"
       | .ok x =>
-        let st0 : SeqState := ⟨mats, [], #[Json.mkObj [("res", Json.null), ("probes", probeAll mats probes x)]]⟩
-        let st ← ops.toList.foldlM (seqStep probes x) st0
+        let paths := getPaths j
+        let st0 : SeqState := ⟨mats, [], #[Json.mkObj [("res", Json.null), ("probes", probeAll mats probes x),
+          ("look", lookAll mats paths probes)]]⟩
+        let st ← ops.toList.foldlM (seqStep paths probes x) st0
         pure (Json.mkObj [("steps", Json.arr st.steps),
-          ("olds", Json.arr (st.olds.map (fun d => Json.mkObj [("probes", probeAll d probes x)])).toArray)])
+          ("olds", Json.arr (st.olds.map (fun d => Json.mkObj [("probes", probeAll d probes x),
+            ("look", lookAll d paths probes)])).toArray)])
     | o => throw s!"unknown op {o}"
 
 end PEval.Driver.C18
